@@ -188,7 +188,7 @@ CanReachQuorum(n, o, bl) ==
 -----------------------------------------------------------------------------
 Init ==
   /\ l = 1
-  /\ hdr = [trno |-> 0, servers |-> {}, tab |-> EmptyFn, params |-> EmptyFn]
+  /\ hdr = [trno |-> 0, servers |-> {}, tab |-> EmptyFn, params |-> EmptyFn, fam |-> ""]
   /\ obs = EmptyFn /\ dlog = EmptyFn /\ dsnaps = EmptyFn
   /\ g = GhostInit({})
   /\ cnt = [viol |-> 0, nonconf |-> 0]
@@ -198,7 +198,8 @@ Keep  == UNCHANGED <<hdr, obs, dlog, dsnaps>>
 
 DoReset(ln) ==
   LET S == SeqToSet(ln.servers) IN
-  /\ hdr' = [trno |-> hdr.trno + 1, servers |-> S, tab |-> ln.cfgtab, params |-> ln.params]
+  /\ hdr' = [trno |-> hdr.trno + 1, servers |-> S, tab |-> ln.cfgtab, params |-> ln.params,
+              fam |-> (IF Has(ln, "family") THEN ln.family ELSE "")]
   /\ obs' = [n \in S |-> EmptyNode] /\ dlog' = [n \in S |-> EmptyFn] /\ dsnaps' = [n \in S |-> <<>>]
   /\ g' = GhostInit(S)
   /\ Quiet
@@ -486,7 +487,8 @@ DoFsm(ln) ==
        /\ Judge(V, {}) /\ Keep
   ELSE IF ln.op = "restore" THEN
     LET i == g.fsmOpen[n][1]
-        V == IF ContentFaithful(ln.content, i, g.agreed, g.bases, g.burned) THEN {}
+        \* (the single-server worlds of L2 start from synthetic images and have no cluster history to compare with)
+        V == IF hdr.fam = "l2" \/ ContentFaithful(ln.content, i, g.agreed, g.bases, g.burned) THEN {}
              ELSE {<<"C02", "RestoreNotAgreedState", <<n, i, ln.content>>>>}
                   \* at start-up: the FSM is rebuilt with entries skipped or repeated
                   \cup (IF n \in g.starting THEN {<<"C10", "RestartFSMNotAgreedState", <<n, i, ln.content>>>>} ELSE {})
